@@ -110,6 +110,27 @@ pub fn check(cx: &Cx, rep: &mut Report) {
                 rep.premise("C17.R4.join_resolves");
             }
         }
+        // R7: `consume()` is lazy: a consume future that has not been polled has neither requested a stop nor given up
+        // the owning handle, so until its first poll the actor runs on (unless something else ends it)
+        for p in ix.ops.iter().filter(|o| o.tag == af.tag && o.op == OpK::ConsumePark && matches!(o.res, Some(Res::Handle { some: true, .. }))) {
+            let Some(Res::Handle { slot, .. }) = p.res else { continue };
+            let first_poll = ix.ops.iter().find(|o| o.c == p.c && o.i > p.i && o.op == OpK::Consume && o.slot == slot && o.arg == 1).map(|o| o.b).unwrap_or(u64::MAX);
+            rep.premise("C17.R7.unpolled_consume_does_nothing");
+            nontrivial = true;
+            if af.failed() || af.is_child {
+                continue;
+            }
+            let Some((t_in, _)) = af.t_final() else { continue };
+            if t_in <= p.b || t_in >= first_poll {
+                continue;
+            }
+            let other_cause = af.stops.iter().any(|s| s.accepted && s.b < t_in) || af.stream_end.map(|s| s < t_in).unwrap_or(false) || ix.phase("reap").map(|r| r < t_in).unwrap_or(false);
+            let restarted = af.incs.len() > 1;
+            // (the future itself, or another strong handle, is still held: not a last-drop termination)
+            if !other_cause && !restarted && af.count_at(t_in) > 0 {
+                rep.fail(P, "R7", "stopped_by_unpolled_consume", format!("actor tag {} began stopped() at #{t_in}: after consume() was called at #{} but before the returned future was first polled ({}), and nothing else had stopped it", af.tag, p.b, if first_poll == u64::MAX { "never".to_string() } else { format!("#{first_poll}") }), vec![p.b, t_in]);
+            }
+        }
         // R3: at most one Some
         rep.premise("C17.R3.at_most_once");
         if somes > 1 {
